@@ -59,7 +59,16 @@ def main(tier_: str) -> int:
             for tmpl in OD_TEMPLATES:
                 for x in ['', 'abr=0', 'base=0']:
                     vecs.append((stream, tmpl, 'odvod', x))
+        # a stream whose text track is stored without tfdt boxes and with fragments of unequal duration
+        # (tests/fixtures/webvtt.mp4): the server has to synthesise the decode times
+        for tmpl in ('hand_made.mpd', 'manifest_n.mpd'):
+            for q in ('', 'timeline=1'):
+                vecs.append(('vtt', tmpl, 'vod', q))
+        vecs.append(('vtt', 'hand_made.mpd', 'odvod', ''))
         with DashApp(d / 'app', fixtures=('bbb', 'tears')) as da:
+            from harness.core import REPO
+            da.add_fixture('bbb', directory='vtt', title='stored without tfdt', only={'bbb_v7', 'bbb_a1'},
+                           extra=[(REPO / 'tests' / 'fixtures' / 'webvtt.mp4', 'vtt_t2')])
             drv = StaticDriver(da)
             for i, (stream, tmpl, mode, q) in enumerate(vecs):
                 lines.extend(drv.static_manifest(1000 + i, stream, tmpl, mode, q, now))
@@ -89,7 +98,7 @@ def main(tier_: str) -> int:
             'refused_or_unsupported': len(refused),
             'samples': [{k: walks[npure][k] for k in ('url', 'rep', 'by', 'keys', 'past', 'sample_url')},
                         {k: walks[-1][k] for k in walks[-1] if k not in ('fetched', 'seg_pos', 'seg_end', 'media_ranges')}],
-            'bounds': 'fixture streams bbb and tears; all vod templates and both odvod templates; tier ' + tier_,
+            'bounds': 'fixture streams bbb and tears, plus bbb video/audio with the tfdt-less webvtt.mp4 as text track; all vod templates and both odvod templates; tier ' + tier_,
         })
         if refused:
             out.notes.append('refused/unsupported: ' + '; '.join(sorted({str(x.get('url')) + ' ' + x['ev'] for x in refused})[:6]))
